@@ -207,8 +207,10 @@ def run_impl(cfg, events, ops, trace=False, payload_type=bytes, keymode="script"
     instrument_recv(ws)
     ft = FakeTime()
     ft.sock = sock
-    old_time = _core.time
-    _core.time = ft
+    # (a tree whose _core no longer imports `time` simply has nothing to substitute: not a reason for the harness to stop)
+    old_time = getattr(_core, "time", None)
+    if old_time is not None:
+        _core.time = ft
     outs = []
     _FRAMES.pop(id(ws), None)
     # a TLS-like transport: some reads first report a record that has only partly arrived (SSLWantReadError); the library
@@ -325,7 +327,8 @@ def run_impl(cfg, events, ops, trace=False, payload_type=bytes, keymode="script"
     finally:
         if _sel_cm is not None:
             _sel_cm.__exit__(None, None, None)
-        _core.time = old_time
+        if old_time is not None:
+            _core.time = old_time
         os.urandom = old_urandom
         websocket._logging._traceEnabled = False
         lg.setLevel(old_level)
